@@ -66,7 +66,9 @@ class ProcessingItemBase:
     )
 
     identifier: str | None = None
-    _pipeline: "ProcessingPipeline" | None = field(init=False, compare=False, default=None)
+    _pipeline: "ProcessingPipeline" | None = field(
+        init=False, compare=False, default=None, repr=False
+    )
 
     @classmethod
     def _base_args_from_dict(
